@@ -433,13 +433,14 @@ func (self *Lexer) makeTildeArrow() (Token, *errors.Error) {
 		)
 	}
 
-	self.advance()
-
-	return newToken(
+	token := newToken(
 		TildeArrow,
-		"->",
+		"~>",
 		startLocation.Until(self.location, self.filename),
-	), nil
+	)
+
+	self.advance()
+	return token, nil
 }
 
 func (self *Lexer) makeEquals() Token {
